@@ -138,7 +138,10 @@ func (g *generator) walkObject(schema *openapi3.Schema) (ast.Type, error) {
 			return ast.Type{}, err
 		}
 
-		return ast.NewMap(ast.String(), valueType), nil
+		t := ast.NewMap(ast.String(), valueType)
+		t.Nullable = schema.Nullable
+
+		return t, nil
 	}
 
 	fields := make([]ast.StructField, 0, len(schema.Properties))
@@ -160,6 +163,7 @@ func (g *generator) walkObject(schema *openapi3.Schema) (ast.Type, error) {
 
 	def := ast.NewStruct(fields...)
 	def.Default = schema.Default
+	def.Nullable = schema.Nullable
 
 	return def, nil
 }
@@ -170,7 +174,10 @@ func (g *generator) walkArray(schema *openapi3.Schema) (ast.Type, error) {
 		return ast.Type{}, err
 	}
 
-	return ast.NewArray(def, ast.Default(schema.Default)), nil
+	t := ast.NewArray(def, ast.Default(schema.Default))
+	t.Nullable = schema.Nullable
+
+	return t, nil
 }
 
 func (g *generator) walkString(schema *openapi3.Schema) (ast.Type, error) {
@@ -230,7 +237,10 @@ func (g *generator) walkInteger(schema *openapi3.Schema) (ast.Type, error) {
 }
 
 func (g *generator) walkBoolean(schema *openapi3.Schema) (ast.Type, error) {
-	return ast.Bool(ast.Default(schema.Default)), nil
+	t := ast.Bool(ast.Default(schema.Default))
+	t.Nullable = schema.Nullable
+
+	return t, nil
 }
 
 func (g *generator) walkAny(_ *openapi3.Schema) (ast.Type, error) {
